@@ -98,7 +98,7 @@ Section Upper.
   Definition tree_sync_steal (t : tree) (min : N) : option tree :=
     if t_res t && (min <=? t_free t) then Some {| t_free := 0; t_res := t_res t; t_class := t_class t |} else None.
 
-  Definition tree_change (t : tree) (class : option N) (free : N) (ch : tree_change) (fetch : N) : option tree :=
+  Definition tree_apply_change (t : tree) (class : option N) (free : N) (ch : tree_change) (fetch : N) : option tree :=
     if negb (t_res t) && (match class with None => true | Some k => k =? t_class t end) && (free <=? t_free t) then
       let c := match c_class ch with Some c => c | None => t_class t end in
       match c_op ch with
@@ -231,11 +231,11 @@ Section Upper.
         let needs := match c_op ch with Some OpOnline => true | _ => false end in
         match fetch with
         | None => if needs then (Panic (SIndex 36), u) else
-                    match tree_change t class free ch 0 with
+                    match tree_apply_change t class free ch 0 with
                     | Some t' => (Ok tt, set_tree u id t')
                     | None => (Err EMemory, u)
                     end
-        | Some f => match tree_change t class free ch f with
+        | Some f => match tree_apply_change t class free ch f with
                     | Some t' => (Ok tt, set_tree u id t')
                     | None => (Err EMemory, u)
                     end
@@ -785,23 +785,24 @@ Section Upper.
                                     cs_alloc := cs_alloc (fst p) + cs_alloc (snd p) |})
                        (combine (ts_classes a) (ts_classes b)) in
     (* frames of local reservations are free, not allocated (D8 repair) *)
-    fold_left (fun acc cs =>
-      let '(c, sl) := cs in
-      match acc with
-      | Ok cl =>
-          if s_pres sl then
-            match tree_at u (row_tree (s_row sl)) with
-            | Some t => Ok (sub_alloc cl (t_class t) (s_free sl))
-            | None => Panic (SIndex 48)
-            end
-          else Ok cl
-      | other => other
-      end) (all_slots u) (Ok classes)
-    |> fun r => match r with
-                | Ok cl => Ok {| ts_free := ts_free a + ts_free b; ts_trees := ts_trees a + ts_trees b; ts_classes := cl |}
-                | Err e => Err e
-                | Panic s => Panic s
-                end.
+    let fixed :=
+      fold_left (fun acc cs =>
+        let '(c, sl) := cs in
+        match acc with
+        | Ok cl =>
+            if s_pres sl then
+              match tree_at u (row_tree (s_row sl)) with
+              | Some t => Ok (sub_alloc cl (t_class t) (s_free sl))
+              | None => Panic (SIndex 48)
+              end
+            else Ok cl
+        | other => other
+        end) (all_slots u) (Ok classes) in
+    match fixed with
+    | Ok cl => Ok {| ts_free := ts_free a + ts_free b; ts_trees := ts_trees a + ts_trees b; ts_classes := cl |}
+    | Err e => Err e
+    | Panic s => Panic s
+    end.
 
   Definition llfree_stats (u : upper) : stats := lower_stats g (low u).
   Definition llfree_stats_at (u : upper) (frame : N) (order : nat) : res stats := lower_stats_at g (low u) frame order.
